@@ -166,6 +166,7 @@ pub fn minimise(prop: &str, case: &AnyCase, class: &str, mut budget: usize) -> A
 /// Worker process body: runs indices from, from+stride, ... < to.
 pub fn worker(prop: &str, seed: u64, tier: &str, from: u64, to: u64, stride: u64, mem_cap: u64, log_outcomes: bool) {
     quiet_panics();
+    IN_WORKER.store(true, std::sync::atomic::Ordering::Relaxed);
     if mem_cap > 0 {
         set_mem_cap(mem_cap);
     }
@@ -767,6 +768,25 @@ pub fn replay(path: &str, mem_cap: u64) -> i32 {
         0
     }
 }
+
+/// Called by engines from inside long runs (C14's enumeration loops): a line on the worker's pipe, at most one per
+/// second, so that the stall watchdog sees progress between sub-evaluations. A stall inside one sub-evaluation is
+/// still a stall. Outside a worker process (replay) it prints nothing.
+pub fn heartbeat() {
+    use std::sync::atomic::{AtomicU64, Ordering};
+    static LAST: AtomicU64 = AtomicU64::new(0);
+    if !IN_WORKER.load(Ordering::Relaxed) {
+        return;
+    }
+    let now = std::time::SystemTime::now().duration_since(std::time::UNIX_EPOCH).map(|d| d.as_secs()).unwrap_or(0);
+    if LAST.swap(now, Ordering::Relaxed) != now {
+        let o = std::io::stdout();
+        let mut o = o.lock();
+        let _ = writeln!(o, "M hb");
+        let _ = o.flush();
+    }
+}
+pub static IN_WORKER: std::sync::atomic::AtomicBool = std::sync::atomic::AtomicBool::new(false);
 
 /// Determinism self-test: the same run indices executed twice, in different processes and with different
 /// worker counts, must give identical per-run outcome hashes (workload, schedule trace, sink image,
